@@ -11,6 +11,7 @@ import argparse, json, os, subprocess
 HERE = os.path.dirname(os.path.dirname(os.path.abspath(__file__)))
 ap = argparse.ArgumentParser()
 ap.add_argument("root"); ap.add_argument("area"); ap.add_argument("--files", nargs="+", required=True); ap.add_argument("--n", type=int, default=4)
+ap.add_argument("--prefix", default="", help="list the notes of preserving/<prefix>* as already made (do something different)")
 a = ap.parse_args()
 base = os.path.join(a.root, a.area); wt = os.path.join(base, "wt")
 os.makedirs(base, exist_ok=True)
@@ -21,6 +22,12 @@ props = []
 for l in open(os.path.join(HERE, "properties.jsonl")):
     d = json.loads(l)
     props.append("**%s -- %s**\n%s\n(Quantified over: %s)" % (d["id"], d["title"], d["statement"], d["quantifier"]["text"]))
+import glob
+taken = []
+if a.prefix:
+    for f in sorted(glob.glob(os.path.join(HERE, "preserving", a.prefix + "*", "meta.json"))):
+        taken.append("- " + os.path.basename(os.path.dirname(f)).replace(a.prefix, "", 1).lstrip("-"))
+TAKEN = ("\nChanges of this kind that were ALREADY made for this area (do something different from each, at other code sites):\n\n" + "\n".join(taken) + "\n") if taken else ""
 brief = """# Task: behaviour-preserving / specification-preserving changes to jtiosue/qubovert
 
 You work ONLY inside `%(wt)s` (a scratch git worktree of the library; python is `/venv/bin/python`, run things with
@@ -38,7 +45,7 @@ loop structure, and so on. Prefer changes whose effect is OBSERVABLE from outsid
 some input) over pure renamings; those are the valuable ones. At least half of your changes must be observable ones.
 
 Restrict your edits to this area of the code base: %(files)s
-
+%(taken)s
 Rules:
 1. Every statement below must still hold after your change, for everything it quantifies over. Think hard about each statement
    the touched code participates in; if you are not sure a statement survives, do not make that change. Documented public
@@ -61,6 +68,6 @@ Finish with a short list: name, files touched, observable or not, suite result, 
 ## The 19 statements
 
 %(props)s
-""" % dict(wt=wt, base=base, n=a.n, files=", ".join(a.files), props="\n\n".join(props))
+""" % dict(wt=wt, base=base, n=a.n, files=", ".join(a.files), taken=TAKEN, props="\n\n".join(props))
 open(os.path.join(base, "BRIEF.md"), "w").write(brief)
 print(os.path.join(base, "BRIEF.md"), len(brief), "bytes")
